@@ -54,6 +54,10 @@ class CreateUE(Stream):
             mnclen = 2 + total % 2
             im = (rng.digits(3) + rng.digits(mnclen) + "0" * (total - 3 - mnclen))[:total]
             cases.append({"imsi": im, "start": 0, "count": count, "k": rng.bytes(16).hex(), "opc": rng.bytes(16).hex(), "op": "", "kind": "short-imsi-population"})
+        # the population whose last member is the last IMSI of its length (99...9): still a legal SUPI, distinct from UE 0's
+        for im, start in (("999999999990000", 9997), ("99999999990000", 9997), ("999999999999990", 7)):
+            cases.append({"imsi": im, "start": start, "count": 3, "k": rng.bytes(16).hex(), "opc": rng.bytes(16).hex(), "op": "", "kind": "last-imsi"})
+            cases.append({"imsi": im, "start": 0, "count": 3, "k": rng.bytes(16).hex(), "opc": rng.bytes(16).hex(), "op": "", "kind": "last-imsi"})
         for i in range(big):
             # whole population through the implementation: pairwise distinctness is checked on the Go output
             # directly; the model is compared on 40 windows of 3 indices spread over the population
@@ -175,3 +179,20 @@ class C16(Check):
             c.update(mcc=mcc, mnc=mnc, imsi=mcc + mnc + msin)
             cfgs.append(c)
         proc.registration_runs(self, binary, cfgs, "the population created from the configuration file")
+        # an OP-only configuration whose file has NO opc line at all (deleted / commented out): the UEs carry the configured OP
+        # and no OPc of anybody else's; the network holds OPc = E_K(OP) xor OP
+        import crypto5g
+        r = self.rng.fork("oponly")
+        c = proc.default_cfg(r, counts=[2, 0, 0, 0, 0])
+        op = r.bytes(16)
+        k = bytes.fromhex(c["k"])
+        c["op"], c["opc"] = op.hex(), bytes(a ^ b for a, b in zip(crypto5g.aes(k, op), op)).hex()
+        y = "\n".join(l for l in proc.yaml_of(c).splitlines() if not l.strip().startswith("opc:")) + "\n"
+        rr = proc.run(binary, c, self.seed & 0xffff, strict=True, yaml_text=y)
+        with self._lock:
+            self.cov["evaluations"] += 1
+            self._distinct.add("op-only-no-opc-line")
+        if not (rr["rc"] == 0 and rr["verdict"].startswith("ok") and not rr["findings"]):
+            self.violation({"theorem_or_stream": "process: registration of an OP-only configuration without an opc line", "input": {"config_yaml": y},
+                            "observed": {"verdict": rr["verdict"], "rc": rr["rc"], "stdout": rr["stdout"][-500:]},
+                            "why": "the UEs created from a configuration file that sets op and has no opc key do not authenticate as the subscribers K/OP describe"})
